@@ -94,7 +94,8 @@ Definition punctuators : list bytes :=
   map bytes_of_string
     [">>>="; "..."; "==="; "!=="; "**="; "<<="; ">>="; ">>>"; "&&="; "||="; "??="; "=>"; "=="; "!="; "<="; ">="; "&&"; "||"; "??"; "?."; "++"; "--";
      "+="; "-="; "*="; "/="; "%="; "&="; "|="; "^="; "<<"; ">>"; "**";
-     "="; "+"; "-"; "*"; "/"; "%"; "<"; ">"; "&"; "|"; "^"; "!"; "~"; "?"; ":"; "("; ")"; "["; "]"; "."; ","]%string.
+     "="; "+"; "-"; "*"; "/"; "%"; "<"; ">"; "&"; "|"; "^"; "!"; "~"; "?"; ":"; "("; ")"; "["; "]"; "."; ",";
+     "{"; "}"; ";"]%string.     (* the statement punctuation (Js/StmtRender.v); no expression token contains these bytes *)
 
 Fixpoint prefix_b (p l : bytes) : bool :=
   match p, l with
